@@ -107,6 +107,40 @@ def _execute_ops(sc, world_spec, sim, knobs, fail_reads=None):
     return world, outs
 
 
+ISOLATABLE = {"align", "align_multi_templates", "score", "landscape", "shared_model"}
+
+
+def _row_of(opname, val, j):
+    """Row j of a per-molecule result, as a plain comparable object."""
+    try:
+        if opname in ("align", "align_multi_templates"):
+            m = val.molecules
+            feats = m.features
+            cols = [c for c in feats.columns if c.startswith("align-") or c in ("score", "labels")]
+            return [np.asarray(m.pos)[j], np.asarray(m.quaternion())[j], [feats[c][j] for c in cols]]
+        if opname == "score":
+            return [np.asarray(a)[j] for a in val]
+        if opname == "landscape":
+            return np.asarray(val["value"])[j]
+        if opname == "shared_model":
+            return val[j]
+    except Exception:
+        return None
+    return None
+
+
+def _run_isolated(sc, world_spec, knobs, op, j):
+    import dask
+
+    W.reset_world(sc["np_seed"])
+    seed_uuid(sc["uuid_seed"])
+    world = C.build_world(world_spec)
+    ld = world.loader
+    world.loader = ld.replace(molecules=ld.molecules.subset([j]))
+    with W.knobs_ctx(knobs), dask.config.set({"scheduler": Sim(mode="sequential").get}):
+        return C.outcome_of(lambda: C.run_op(op, world))
+
+
 def _shape_mismatch(val):
     if isinstance(val, dict) and "declared" in val:
         if list(val["declared"]) != list(val["computed"]):
@@ -178,6 +212,34 @@ def execute(sc):
                 if mm:
                     violation = {"kind": "declared-shape", "site": sc["ops"][i]["op"], "detail": mm, "op_index": i}
                     break
+
+    # 2b. isolation: a per-molecule result must not depend on which other molecules are computed with it.
+    #     The last molecule is computed alone (fresh world, fresh model, sequential) and compared with its row.
+    iso_checked = 0
+    if violation is None and not generator_defect:
+        n_all = sum(w["n_mol"])
+        j = n_all - 1
+        for i, op in enumerate(sc["ops"]):
+            if op["op"] not in ISOLATABLE or ref[i][0] != "ok":
+                continue
+            row = _row_of(op["op"], ref[i][1], j)
+            if row is None:
+                continue
+            iso = _run_isolated(sc, w, knobs, op, j)
+            if iso[0] != "ok":
+                violation = {"kind": "depends-on-other-tasks", "site": op["op"], "detail": f"{op['op']}: molecule {j} alone raises {iso[1]['type']}: {iso[1]['msg'][:150]}", "op_index": i}
+                break
+            row0 = _row_of(op["op"], iso[1], 0)
+            iso_checked += 1
+            if digest(row) != digest(row0):
+                a, b = _arrays_of(row), _arrays_of(row0)
+                d = max((max_abs_diff(x, y) for x, y in zip(a, b)), default=0.0) if a is not None and b is not None and len(a) == len(b) else None
+                mag = max((float(np.max(np.abs(x))) for x in (a or []) if np.size(x)), default=1.0)
+                if d is not None and d <= 1e-6 * max(1.0, mag):
+                    continue  # last-bit differences of vectorised vs scalar pose arithmetic (N rows vs 1 row) are not a dependence
+                violation = {"kind": "depends-on-other-tasks", "site": op["op"],
+                             "detail": f"{op['op']}: row {j} computed together with the other molecules differs from the same molecule computed alone (max abs diff {d})", "op_index": i}
+                break
 
     # 3. simulated execution
     fail_reads = None
@@ -294,7 +356,7 @@ def execute(sc):
         "violation": violation,
         "notes": notes,
         "generator_defect": generator_defect,
-        "stats": dict(st, sites=len(sim.sites), f8_delivered=delivered_f8, twin_ops=twin_checked,
+        "stats": dict(st, sites=len(sim.sites), f8_delivered=delivered_f8, twin_ops=twin_checked, iso_ops=iso_checked,
                       steps=sim.steps, ref_tasks=ref_sim.stats["tasks"],
                       padded=int(bool(w["edge"])), n_ops=len(sc["ops"])),
         "digests": dict(sim.digests(), result=digest([d for d in ref_digests])),
